@@ -134,6 +134,43 @@ CLAIMED.update({
         ref="DESIGN.md §5 C13", note=NOTE_COMMON + " if_cmp and switch_-produced references are not exercised; delta_value() on a sampled rebind is not asserted."),
 })
 
+CLAIMED.update({
+    "C07": dict(
+        text=("Differential exploration of reproducibility and isolation: each generated program (stateful dataflow, map_ with dynamic "
+              "children, recorded writer) is run alone in a freshly started worker process, then inside a long-lived worker that has "
+              "already built and run thousands of unrelated graphs, with its builder reused up to 4 times and up to 8 executors running "
+              "simultaneously on threads; every run's complete event trace and recorded buffers must be byte-identical to the fresh run. "
+              "Overlap of the run() intervals is measured and reported."),
+        technique="property-based testing: differential (fresh process vs history / builder reuse / concurrent threads) over full traces",
+        ref="DESIGN.md §5 C07", note=NOTE_COMMON + " Thread interleavings are sampled by the OS, not enumerated; a race that changes no output is invisible. Wiring, make_executor and release stay on one thread (the supported usage)."),
+    "C14": dict(
+        category="fault_enumeration",
+        text=("Fault-injection exploration: programs (flat chains, nested 1-2 deep, live map_ children, live switch_ branch) are combined with "
+              "generated fault plans of 1-2 scripted exceptions (node x start/evaluate/stop x occurrence), cleanup_on_error on/off and "
+              "request_stop; the lifecycle log of every graph is checked for start order, reverse stop order, exactly one stop per completed "
+              "start by the required moment, no evaluation outside [start, stop], full rollback of a failed start, stops continuing after a "
+              "failing stop, and the first error reaching the caller with node and phase. Two genuine defects found this way were repaired "
+              "(fix: commits eab566f, 964c8c8) and are kept as corpus regressions."),
+        technique="property-based testing with fault injection: Hypothesis program x fault-plan generator + lifecycle-log invariants",
+        ref="DESIGN.md §5 C14, §5a F4", note=NOTE_COMMON + " Fault points are sampled, not enumerated exhaustively; reduce combiner children are not in the generated shapes."),
+    "C15": dict(
+        text=("Differential exploration of captured errors: a program with throwing compute nodes under exception_time_series, a throwing "
+              "sub-graph under try_except, or a map_ whose children of chosen keys throw, is run with and without the faults; the run must "
+              "complete, independent streams must be identical, error outputs must tick exactly in the throw cycles with the thrown "
+              "message, the failing node must be evaluated again normally afterwards, and keyed errors must appear under the failing keys only."),
+        technique="property-based testing: differential (with vs without faults) between engine runs",
+        ref="DESIGN.md §5 C15", note=NOTE_COMMON + " The failing node's ordinary output in a throw cycle is documented as unspecified and not compared."),
+    "C19": dict(
+        text=("Model-based + metamorphic exploration of operator resolution: run-time overload families from a pattern grammar (concrete, "
+              "scalar / whole-TS / repeated / size variables, nested TSD/TSL/TSS/TSB, REF, SIGNAL) are registered in 2-4 orders under fresh "
+              "names and resolved against generated argument tuples; an independent Python unifier decides matches, bindings, output type "
+              "and the substitution-instance order. A finite sub-domain (families of <= 3 one-parameter candidates over 15 patterns x 6 "
+              "argument types x all orders) is enumerated exhaustively in every run. Known finding F12 (size variables carry no rank) is "
+              "excluded and counted."),
+        technique="property-based testing: metamorphic (registration order) + reference unifier; exhaustive enumeration of a finite sub-domain",
+        ref="DESIGN.md §5 C19", note=NOTE_COMMON + " Scalar (non time-series) parameters with defaults and the compiled-in static-node candidates are not exercised; incomparable candidates are only subject to order independence."),
+})
+
 NOT_YET = {}
 
 
